@@ -54,6 +54,7 @@ type Exec struct {
 	evArgsSkip  int
 	selfVal0    *Val
 	onlySafety  bool
+	lastCallArgs []Val          // arguments (receiver included) of the call being executed
 	guardedAll  map[string]bool // lazily: every heap key guarded by some lock
 	fcModKeys   map[string]bool // lazily: heap keys named by the modifies clause of x.fc
 }
@@ -279,6 +280,16 @@ func (x *Exec) Verify() {
 			ob.Static = false
 		}
 	}
+	if prm, tc := x.recvInv(fn); tc != nil {
+		// a method of a type with invariants: they hold on entry (established at creation, preserved by every method,
+		// and nothing else writes the fields they mention)
+		terms, _ := x.invTerms(p, tc, x.params[prm.Name()])
+		for _, t := range terms {
+			p.assume(t)
+		}
+		p.oldSnap = p.snap()
+		x.e.note("type invariants of " + shortTypeKey(typeKey(prm.Type())) + " assumed at method entry, proved at every method's exit")
+	}
 	if len(fn.Blocks) == 0 {
 		x.errorf("function %s has no body", fn)
 		return
@@ -295,6 +306,110 @@ func (x *Exec) Verify() {
 		pan: func(p *Path) { x.checkExit(p, nil, true) },
 	}
 	x.enterBlock(p, fn.Blocks[0], nil, k)
+}
+
+// ---- type invariants (`inv` in a type block): thread-confined objects whose fields only their methods write ---------
+
+// invType: the contract of the struct type behind t (T or *T) if it declares invariants.
+func (x *Exec) invType(t types.Type) *TypeContract {
+	if t == nil {
+		return nil
+	}
+	if pt, ok := t.Underlying().(*types.Pointer); ok {
+		t = pt.Elem()
+	}
+	tc := x.e.cs.Types[typeKey(t)]
+	if tc == nil || len(tc.Invs) == 0 {
+		return nil
+	}
+	return tc
+}
+
+// recvInv: the receiver of fn and its type contract if fn is a method of a type with invariants.
+func (x *Exec) recvInv(fn *ssa.Function) (*ssa.Parameter, *TypeContract) {
+	if fn == nil || fn.Signature.Recv() == nil || len(fn.Params) == 0 {
+		return nil, nil
+	}
+	tc := x.invType(fn.Params[0].Type())
+	if tc == nil {
+		return nil, nil
+	}
+	return fn.Params[0], tc
+}
+
+// invTerms evaluates the invariants of tc for the object v in the current state of p.
+func (x *Exec) invTerms(p *Path, tc *TypeContract, v Val) (terms []string, clauses []*Clause) {
+	for _, li := range tc.Invs {
+		ctx := x.evalCtx(p, map[string]Val{li.Self: v})
+		ctx.pkg = tc.Pkg
+		ctx.old = nil
+		ctx.frame = nil
+		s, err := ctx.EvalBool(li.C.E)
+		if err != nil {
+			x.errorf("%s:%d: inv: %v", li.C.File, li.C.Line, err)
+			continue
+		}
+		terms = append(terms, s)
+		clauses = append(clauses, li.C)
+	}
+	return
+}
+
+// invMentions: field / ghost names the invariants of tc talk about (by name).
+func invMentions(tc *TypeContract) map[string]bool {
+	out := map[string]bool{}
+	var walk func(e Expr)
+	walk = func(e Expr) {
+		switch e := e.(type) {
+		case *ESel:
+			out[e.F] = true
+			walk(e.X)
+		case *EIndex:
+			walk(e.X)
+			walk(e.I)
+		case *EBinary:
+			walk(e.L)
+			walk(e.R)
+		case *EUnary:
+			walk(e.X)
+		case *ECall:
+			for _, a := range e.Args {
+				walk(a)
+			}
+		case *EQuant:
+			walk(e.Body)
+		}
+	}
+	for _, li := range tc.Invs {
+		walk(li.C.E)
+	}
+	return out
+}
+
+// reassumeRecvInv: arbitrary code ran inside a method of a type with invariants. That code can reach the receiver only
+// through its methods, each of which is verified to preserve the invariants, unless the call handed it part of the
+// representation (a value loaded from a field the invariants mention): then nothing is assumed.
+func (x *Exec) reassumeRecvInv(p *Path) {
+	prm, tc := x.recvInv(x.fn)
+	if tc == nil {
+		return
+	}
+	recv, ok := x.params[prm.Name()]
+	if !ok {
+		return
+	}
+	ment := invMentions(tc)
+	tk := typeKey(prm.Type())
+	for _, a := range x.lastCallArgs {
+		if a.Own != nil && a.Own.TKey == tk && ment[a.Own.Field] {
+			x.e.note("representation of " + shortTypeKey(tk) + " handed to unknown code in " + shortTypeKey(x.e.funcKey(x.fn)) + ": its invariants are not assumed afterwards")
+			return
+		}
+	}
+	terms, _ := x.invTerms(p, tc, recv)
+	for _, t := range terms {
+		p.assume(t)
+	}
 }
 
 func (x *Exec) assumeAxioms(p *Path) {
@@ -2287,6 +2402,12 @@ func (x *Exec) withResults(fc *FuncContract, vars map[string]Val, res []Val) map
 func (x *Exec) checkExit(p *Path, res []Val, panicked bool) {
 	if p.dead {
 		return
+	}
+	if prm, tc := x.recvInv(x.fn); tc != nil && !panicked {
+		terms, cls := x.invTerms(p, tc, x.params[prm.Name()])
+		for i, t := range terms {
+			x.oblige(p, "inv", cls[i].Label, t, cls[i].Props, "type invariant of "+shortTypeKey(typeKey(prm.Type()))+" at method exit: "+cls[i].Src)
+		}
 	}
 	fc := x.fc
 	if fc == nil {
